@@ -207,7 +207,11 @@ impl Function {
 
         let mut post_call = if self.moves_self {
             if cpp_mode {
-                format!("    mem_forget({}container);\n", this_access)
+                // The context clone taken before the call has no destructor of its own.
+                format!(
+                    "    mem_forget({}container);\n    ctx_release(std::move(___ctx));\n",
+                    this_access
+                )
             } else if context.2 && self.calls_vtbl {
                 format!("    ctx_{}_drop(&___ctx);\n", context.1.to_lowercase())
             } else {
